@@ -7,7 +7,8 @@ Open Scope Z_scope.
 
 (* the engine as the source has it now *)
 Definition gen_flags : flags :=
-  mkF plan_error_aborts commit_refusal_discards_shells dry_run_discards_shells ensure_resolves_staged.
+  mkF plan_error_aborts commit_refusal_discards_shells dry_run_discards_shells ensure_resolves_staged
+      staged_lookup_walks_staging_map.
 
 (* The model transcribes the code that exists: the shape facts it relies on, re-extracted on every run. *)
 Theorem C17_generated_engine_shape :
@@ -26,7 +27,8 @@ Theorem C17_generated_engine_shape :
   /\ pending_becomes_active_on_write = true
   /\ ensure_resolves_committed = true
   /\ seq_allocated_at_begin_plus_one = true
-  /\ journal_row_carries_tx_seq = true.
+  /\ journal_row_carries_tx_seq = true
+  /\ staged_lookup_walks_staging_map = true.
 Proof. repeat split; reflexivity. Qed.
 Print Assumptions C17_generated_engine_shape.
 
@@ -44,7 +46,7 @@ Print Assumptions C17_engine_refused_and_dry_run_noop.
    there (two ENSUREs of one tuple in one block) now commits one proposition *)
 Theorem C17_engine_duplicate_ensure_resolves_to_one_element :
   fst (run_statement gen_flags false 0 (mkS [] [] [] 0 0)
-         [CCreate 1 0 11 0 true; CCreate 1 0 12 0 true; CEnsure 77 13; CEnsure 77 14])
+         [CCreate 1 0 11 0 true; CCreate 1 0 12 0 true; CEnsure true 77 13; CEnsure true 77 14])
   = OCommitted 1 0 [(1, 1); (2, 1); (3, 1)].
 Proof. vm_compute. reflexivity. Qed.
 Print Assumptions C17_engine_duplicate_ensure_resolves_to_one_element.
@@ -56,7 +58,7 @@ Theorem C17_engine_write_loop_never_fails :
   forall dry time s stmt,
     Forall wf_clause stmt -> uniq_b (s_elems s) = true -> no_pending_b (s_elems s) = true ->
     fst (run_statement gen_flags dry time s stmt) <> OWriteFailed.
-Proof. exact (fun dry time s stmt => tx_write_loop_never_fails gen_flags dry time s stmt eq_refl). Qed.
+Proof. exact (fun dry time s stmt => tx_write_loop_never_fails gen_flags dry time s stmt eq_refl eq_refl). Qed.
 Print Assumptions C17_engine_write_loop_never_fails.
 
 (* ... hence refused_noop without a guard: EVERY refused or previewed statement of the engine model, on a
@@ -68,15 +70,36 @@ Theorem C17_engine_refused_noop :
     resp_of o = Refused \/ resp_of o = DryRun ->
     proj s' = proj s /\ s_seq s' = s_seq s + 1.
 Proof.
-  exact (fun dry time s stmt o s' => tx_refused_noop_all gen_flags dry time s stmt o s' eq_refl eq_refl eq_refl eq_refl).
+  exact (fun dry time s stmt o s' => tx_refused_noop_all gen_flags dry time s stmt o s' eq_refl eq_refl eq_refl eq_refl eq_refl).
 Qed.
 Print Assumptions C17_engine_refused_noop.
+
+(* ... in every spelling: whichever of the namings are anonymous (bind no handle) and whichever carry one
+   (a handled ENSURE, the ASSERT sugar), in either order, two namings of one uncommitted tuple are one element *)
+Theorem C17_engine_duplicate_ensure_any_spelling_resolves_to_one_element :
+  forall n1 n2 : bool,
+    fst (run_statement gen_flags false 0 (mkS [] [] [] 0 0)
+           [CCreate 1 0 11 0 true; CCreate 1 0 12 0 true; CEnsure n1 77 13; CCreate 4 0 15 0 true; CEnsure n2 77 14])
+    = OCommitted 1 0 [(1, 1); (2, 1); (4, 1); (3, 1)].
+Proof. intros [|] [|]; vm_compute; reflexivity. Qed.
+Print Assumptions C17_engine_duplicate_ensure_any_spelling_resolves_to_one_element.
+
+(* refuted for a lookup that walks only what the block's handles name: an anonymous ENSURE followed by any
+   other naming of the tuple fails in the write loop with three rows written *)
+Theorem C17_refused_noop_refuted_with_handle_only_lookup :
+  exists s stmt s',
+    run_statement (mkF true true true true false) false 0 s stmt = (OWriteFailed, s')
+    /\ resp_of OWriteFailed = Refused
+    /\ List.length (filter (fun e => negb (e_state e =? PENDING)) (s_elems s')) = 3%nat
+    /\ List.length (s_vlog s') = 3%nat /\ s_journal s' = [] /\ s_elems s = [].
+Proof. exact tx_refused_noop_refuted_with_handle_only_lookup. Qed.
+Print Assumptions C17_refused_noop_refuted_with_handle_only_lookup.
 
 (* refused_noop is false of the engine without the staged lookup / without the discard (the code before
    the two fix commits): the witnesses are the replayed statements of known_findings.json *)
 Theorem C17_refused_noop_refuted_without_staged_lookup :
   exists s stmt s',
-    run_statement (mkF true true true false) false 0 s stmt = (OWriteFailed, s')
+    run_statement (mkF true true true false true) false 0 s stmt = (OWriteFailed, s')
     /\ resp_of OWriteFailed = Refused
     /\ List.length (filter (fun e => negb (e_state e =? PENDING)) (s_elems s')) = 3%nat
     /\ List.length (s_vlog s') = 3%nat /\ s_journal s' = [] /\ s_elems s = [].
@@ -85,7 +108,7 @@ Print Assumptions C17_refused_noop_refuted_without_staged_lookup.
 
 Theorem C17_refused_noop_refuted_without_discard :
   exists s stmt s',
-    run_statement (mkF true false true true) false 0 s stmt = (OCommitRefused, s')
+    run_statement (mkF true false true true true) false 0 s stmt = (OCommitRefused, s')
     /\ s_elems s = [] /\ List.length (s_elems s') = 2%nat.
 Proof. exact tx_refused_commit_left_shells_without_discard. Qed.
 Print Assumptions C17_refused_noop_refuted_without_discard.
@@ -113,8 +136,8 @@ Print Assumptions C17_engine_one_version_row_per_change_partial.
 (* the model's own commits satisfy the monitor *)
 Example C17_engine_nonvacuous :
   let s0 := mkS [] [] [] 0 0 in
-  let '(o, s1) := run_statement gen_flags false 3 s0 [CCreate 1 9 11 0 true; CEnsure 77 13; CCreate 3 0 12 5 true] in
-  let '(o2, s2) := run_statement gen_flags false 4 s1 [CTouch 1 21 true true; CTouch 1 22 true true; CEnsure 77 14] in
+  let '(o, s1) := run_statement gen_flags false 3 s0 [CCreate 1 9 11 0 true; CEnsure false 77 13; CCreate 3 0 12 5 true] in
+  let '(o2, s2) := run_statement gen_flags false 4 s1 [CTouch 1 21 true true; CTouch 1 22 true true; CEnsure true 77 14] in
   let '(o3, s3) := run_statement gen_flags false 5 s2 [CTouch 1 23 true true; CCreate 1 9 31 0 true] in
   (check_history s0 [(resp_of o, s1); (resp_of o2, s2); (resp_of o3, s3)], o2, o3)
   = (true, OCommitted 2 0 [(1, 2)], OCommitRefused).
